@@ -1,8 +1,9 @@
 """C18 N: the normalisation pipeline of javadoc::parse_javadoc as an extracted model.
 
-Extraction (abstract interpretation of parse_javadoc and its closures): the three regex constants,
-the replacement strings, the set of characters trimmed, the joiner and the shape
-split -> map(trim, replace_all) -> map(replace_all) -> collect -> join.  The extracted model is then
+Extraction (abstract interpretation of parse_javadoc and its closures): the split regex, the joiner and the
+sequence of per-part operations (trim_matches with its character set, replace_all with its regex constant and
+replacement string) applied by the `map` stages between split and collect -> join, in whatever way the
+operations are distributed over the stages.  The extracted model is then
 evaluated (with Python's `re`, whose semantics coincide with the regex crate's for these
 constructs: character classes, greedy star/optional, one capture group, leftmost non-overlapping
 replacement) on a bounded family of doc-comment bodies and compared with a reference normaliser
@@ -14,7 +15,8 @@ from closures import run_closure
 PJ = "javadoc::parse_javadoc"
 PURE = ["regex::Regex::new", "std::result::Result::<T, E>::unwrap", "regex::Regex::split", "regex::Regex::replace_all",
         "rules::aidl::core::str::<impl str>::trim_matches", "std::iter::Iterator::collect",
-        "<std::borrow::Cow<'_, str> as std::string::ToString>::to_string", "<std::borrow::Cow<'a, str> as std::string::ToString>::to_string"]
+        "<std::borrow::Cow<'_, str> as std::string::ToString>::to_string", "<std::borrow::Cow<'a, str> as std::string::ToString>::to_string",
+        "<std::borrow::Cow<'_, B> as std::ops::Deref>::deref", "std::borrow::Cow::<'_, B>::into_owned", "<std::borrow::Cow<'_, B> as std::convert::AsRef<T>>::as_ref"]
 
 
 def regex_const(l):
@@ -26,50 +28,11 @@ def regex_const(l):
     return None
 
 
-def extract(facts):
-    fn = facts.fn(PJ)
-    ps = Machine(facts, pure_fns=PURE).run(PJ, [sym_ref("s")])
-    if len(ps) != 1 or ps[0].effects:
-        raise Unsupported("parse_javadoc: %d paths / effects" % len(ps))
-    l = lab(ps[0].ret)
-    m = {}
-    try:
-        assert l[0] == "call" and l[1].endswith("::join")
-        coll, joiner = l[2]
-        m["joiner"] = joiner[2]
-        assert coll[0] == "call" and coll[1].endswith("::collect")
-        it2 = coll[2][0]
-        assert it2[0] == "adt" and it2[1] == "iter:map"
-        f2 = dict(it2[3])
-        it1 = f2[0]
-        clo2 = f2[1]
-        assert it1[0] == "adt" and it1[1] == "iter:map"
-        f1 = dict(it1[3])
-        src = f1[0]
-        clo1 = f1[1]
-        assert src[0] == "call" and src[1] == "regex::Regex::split" and src[2][1] == "s"
-        m["split"] = regex_const(src[2][0])
-        c1, c2 = clo1[1][len("closure:"):], clo2[1][len("closure:"):]
-        m["re_a"] = regex_const(dict(clo1[3])[0])
-        m["re_b"] = regex_const(dict(clo2[3])[0])
-    except (AssertionError, KeyError, IndexError, TypeError) as e:
-        raise Unsupported("parse_javadoc no longer has the shape split -> map -> map -> collect -> join: %s" % fmt_label(l)[:300])
-    if None in (m["split"], m["re_a"], m["re_b"]):
-        raise Unsupported("a regex of parse_javadoc is not a string constant")
-    # closure 1: re.replace_all(s.trim_matches(pred), REPL).to_string()
-    cp, _ = run_closure(facts, c1, {"re": Opaque("RE_A")}, [sym_ref("part")], pure_fns=PURE)
-    if len(cp) != 1:
-        raise Unsupported("per-paragraph closure has %d paths" % len(cp))
-    l1 = lab(cp[0].ret)
-    while isinstance(l1, tuple) and l1[0] == "call" and l1[1].endswith("to_string"):
-        l1 = l1[2][0]
-    if not (isinstance(l1, tuple) and l1[0] == "call" and l1[1] == "regex::Regex::replace_all" and l1[2][0] == "RE_A"):
-        raise Unsupported("per-paragraph closure: %s" % fmt_label(l1)[:200])
-    tm = l1[2][1]
-    m["repl_a"] = l1[2][2][2] if l1[2][2][:2] == ("const", "str") else None
-    if not (isinstance(tm, tuple) and tm[0] == "call" and tm[1].endswith("trim_matches") and tm[2][0] == "part"):
-        raise Unsupported("per-paragraph closure does not trim its input: %s" % fmt_label(tm)[:200])
-    pred = tm[2][1]
+TEXT_IDENTITY = ("to_string", "into_owned", "to_owned", "::deref", "::as_ref", "::borrow", "::as_str", "::into", "::from", "::clone")
+
+
+def trim_set(facts, pred):
+    """the set of characters accepted by a trim predicate (closure or local function), by evaluating it on each class"""
     pc = pred[1][len("closure:"):] if isinstance(pred, tuple) and pred[0] == "adt" and str(pred[1]).startswith("closure:") else None
     is_fn = False
     if pc is None and isinstance(pred, tuple) and len(pred) == 2 and pred[0] == "fn" and pred[1] in facts.fns:
@@ -88,18 +51,84 @@ def extract(facts):
             if name.startswith("<"):
                 raise Unsupported("trim predicate accepts arbitrary characters")
             trimmed.append(name)
-    m["trim"] = "".join(trimmed)
-    cp, _ = run_closure(facts, c2, {"re": Opaque("RE_B")}, [Opaque("part2", "std::string::String")], pure_fns=PURE)
-    if len(cp) != 1:
-        raise Unsupported("tag closure has %d paths" % len(cp))
-    l2 = lab(cp[0].ret)
-    while isinstance(l2, tuple) and l2[0] == "call" and l2[1].endswith("to_string"):
-        l2 = l2[2][0]
-    if not (isinstance(l2, tuple) and l2[0] == "call" and l2[1] == "regex::Regex::replace_all" and l2[2][0] == "RE_B" and l2[2][1] == "part2"):
-        raise Unsupported("tag closure: %s" % fmt_label(l2)[:200])
-    m["repl_b"] = l2[2][2][2] if l2[2][2][:2] == ("const", "str") else None
-    if m["repl_a"] is None or m["repl_b"] is None:
-        raise Unsupported("replacement is not a string constant")
+    return "".join(trimmed)
+
+
+def ops_of(facts, l, inp):
+    """label of a per-part text expression -> list of operations applied to `inp`, innermost first"""
+    if l == inp:
+        return []
+    if isinstance(l, tuple) and l and l[0] == "call":
+        name, args = l[1], l[2]
+        if name == "regex::Regex::replace_all" and len(args) == 3:
+            pat = args[0][1] if isinstance(args[0], tuple) and args[0][0] == "regex-const" else None
+            if pat is None:
+                raise Unsupported("replace_all on something that is not one of the captured regex constants: %s" % fmt_label(args[0])[:120])
+            if not (isinstance(args[2], tuple) and args[2][:2] == ("const", "str")):
+                raise Unsupported("replacement is not a string constant")
+            return ops_of(facts, args[1], inp) + [("sub", pat, args[2][2])]
+        if name.endswith("trim_matches") and len(args) == 2:
+            return ops_of(facts, args[0], inp) + [("trim", trim_set(facts, args[1]))]
+        if len(args) == 1 and name.endswith(TEXT_IDENTITY):
+            return ops_of(facts, args[0], inp)
+    raise Unsupported("per-part stage is not a composition of trim_matches / replace_all on its input: %s" % fmt_label(l)[:200])
+
+
+def run_stage(facts, cpath, cap_labels, arg):
+    """run one `map` closure with its captures bound to the regex constants they hold in parse_javadoc"""
+    f = facts.fn(cpath)
+    fields = {}
+    for i, c in enumerate(f["captures"]):
+        pat = regex_const(cap_labels.get(i))
+        if pat is None:
+            raise Unsupported("closure %s captures `%s`, which is not a regex constant" % (cpath, c["name"]))
+        cell = Cell(Opaque(("regex-const", pat)), c["name"].lstrip("*"))
+        fields[i] = Cell(Ref(cell, False)) if c["by"].startswith("ByRef") else cell
+    env = AdtVal("closure:" + cpath, None, fields)
+    body = f["body"]
+    a0 = Ref(Cell(env), True) if body["locals"][1]["ty"].startswith("&") else env
+    ps = Machine(facts, pure_fns=PURE).run(cpath, [a0, arg])
+    if len(ps) != 1 or ps[0].effects:
+        raise Unsupported("stage closure %s has %d paths / effects" % (cpath, len(ps)))
+    return lab(ps[0].ret)
+
+
+def extract(facts):
+    """model = split regex, joiner and the sequence of per-part operations (trim set / regex substitution) in the
+    order in which the `map` stages apply them - however the stages are distributed over closures"""
+    facts.fn(PJ)
+    ps = Machine(facts, pure_fns=PURE).run(PJ, [sym_ref("s")])
+    if len(ps) != 1 or ps[0].effects:
+        raise Unsupported("parse_javadoc: %d paths / effects" % len(ps))
+    l = lab(ps[0].ret)
+    m = {}
+    stages = []
+    try:
+        assert l[0] == "call" and l[1].endswith("::join")
+        coll, joiner = l[2]
+        assert joiner[:2] == ("const", "str")
+        m["joiner"] = joiner[2]
+        assert coll[0] == "call" and coll[1].endswith("::collect")
+        it = coll[2][0]
+        while it[0] == "adt" and it[1] == "iter:map":
+            fs = dict(it[3])
+            stages.insert(0, fs[1])
+            it = fs[0]
+        assert stages
+        assert it[0] == "call" and it[1] == "regex::Regex::split" and it[2][1] == "s"
+        m["split"] = regex_const(it[2][0])
+        for clo in stages:
+            assert clo[0] == "adt" and str(clo[1]).startswith("closure:")
+    except (AssertionError, KeyError, IndexError, TypeError) as e:
+        raise Unsupported("parse_javadoc no longer has the shape split -> map ... -> collect -> join: %s" % fmt_label(l)[:300])
+    if m["split"] is None:
+        raise Unsupported("the split regex of parse_javadoc is not a string constant")
+    ops = []
+    for k, clo in enumerate(stages):
+        cpath = clo[1][len("closure:"):]
+        arg = sym_ref("part") if k == 0 else Opaque("part", "std::string::String")
+        ops += ops_of(facts, run_stage(facts, cpath, dict(clo[3]), arg), "part")
+    m["ops"] = [list(o) for o in ops]
     return m
 
 
@@ -112,9 +141,11 @@ def evaluate(m, body):
     parts = re.split(m["split"], body)
     out = []
     for p in parts:
-        p = p.strip(m["trim"])
-        p = re.sub(m["re_a"], rust_repl(m["repl_a"]), p)
-        p = re.sub(m["re_b"], rust_repl(m["repl_b"]), p)
+        for op in m["ops"]:
+            if op[0] == "trim":
+                p = p.strip(op[1])
+            else:
+                p = re.sub(op[1], rust_repl(op[2]), p)
         out.append(p)
     return m["joiner"].join(out)
 
